@@ -175,7 +175,12 @@ impl GraphInline {
                 if !self.is_ref() && text.eq_ignore_ascii_case(url) {
                     format!("<{}>", url)
                 } else if self.is_ref() {
-                    format!("[{}]({}{})", text, url, options.refs_extension)
+                    format!(
+                        "[{}]({}{})",
+                        text,
+                        url.strip_suffix(".md").unwrap_or(url),
+                        options.refs_extension
+                    )
                 } else {
                     format!("[{}]({})", text, url)
                 }
